@@ -16,24 +16,37 @@ from vp.refs import dmr_ref
 LEVEL = "exploration"
 RULE = (
     "case = (rate in {1/2,3/4,1}, confirmed?, payload octets, number of preamble CSBKs 0..16, colour code 0..15, timeslot, "
-    "header fields: LLIDs, group flag, SAP, F, S, N(S), FSN).  'lengths' sub-check: enumeration of payload lengths "
-    "(quick: every length that needs 1..4 blocks plus cap(k)-1, cap(k), cap(k)+1 for k in {5,10,63,64,126,127} where "
-    "cap(k) = k*per-4 is the largest payload of k blocks, capped at 1500 octets; thorough: every length 0..1500 that "
-    "fits the 7-bit blocks-to-follow field) x 6 (rate, mode) slices with seeded payload bytes and rotating preamble "
-    "counts.  'random' sub-check: Hypothesis draws of all fields, lengths weighted towards block boundaries, payload "
-    "bytes random / all 0x00 / all 0xFF / hash-expanded.  'short_boundary_payloads' sub-check: deterministic enumeration "
-    "with SAP UDP/IP header compression, payload lengths 0..12, octets {00,01,7F,80,81,FF} on two of the first six positions "
-    "(positions (3,4): all 36 pairs x 2 fills; other position pairs: 3 sampled pairs), all 6 slices.  Distinct = (rate, mode, length, blocks, pad, preambles, colour "
-    "code, payload digest); non-trivial = at least 2 data blocks, or confirmed, or pad > 0."
+    "header fields: LLIDs, group flag, SAP, DPF, F, S, N(S), FSN).  'lengths': enumeration over the 6 (rate, mode) slices of "
+    "every payload length that needs 1..8 blocks plus cap(k)-1, cap(k), cap(k)+1 for k in {1..12, 31..33, 62..65, 125..127} "
+    "(cap(k) = k*per-4 = largest payload of k blocks; boundary lengths above 1500 octets are kept for rates 3/4 and 1) and "
+    "length 1500, each with 0, 1, 2 and 16 preambles (2 only up to 40 blocks); thorough: additionally every length 0..1500, "
+    "with 0, 1 and 16 preambles; payload bytes rotate hash-expanded / all 00 / all FF, other fields rotate.  "
+    "'crc_extremes': payloads solved by GF(2) linearity (dmr_ref.force_crc32 / force_crc9_field) so that the packet CRC-32 is "
+    "exactly 00000000, FFFFFFFF, 00000001 or 80000000 (11 lengths per slice incl. 5, 6, exact fits, pad > 0, 30 blocks) or "
+    "that the CRC-9 field of one intermediate confirmed block is 000 or 1FF (2, 3, 6 blocks, every intermediate block in "
+    "turn).  'header_fields': on a fixed 50-octet payload every header field over its complete range, one at a time (7 "
+    "defined SAPs, FSN 0..15, N(S) 0..7, F, S, group, DPF independent of the A bit, colour code 0..15, timeslot, LLID "
+    "extremes, preambles 0..16) plus the cross product DPF x F x S x group x {0,1} preambles, all 6 slices.  "
+    "'short_boundary_payloads': SAP UDP/IP header compression, payload lengths 0..12, octets {00,01,7F,80,81,FF} on two of "
+    "the first six positions (positions (3,4): all 36 pairs x 2 fills; other position pairs: 3 sampled pairs), all 6 slices.  "
+    "'random': Hypothesis draws of all fields, lengths 0..1500 weighted towards block boundaries, payload bytes random / all "
+    "0x00 / all 0xFF / all 0x80 / hash-expanded.  Distinct = (rate, mode, length, blocks, pad, preambles, colour code, "
+    "payload digest); non-trivial = at least 2 data blocks, or confirmed, or pad > 0."
 )
 ASSUMPTIONS = [
     "the caller supplies a DataHeader whose blocks-to-follow and pad-octet count are consistent with the payload (the "
     "generator API asserts the pad count); the harness computes both from ETSI TS 102 361-1 table 8.1 arithmetic "
     "(vp/refs/dmr_ref.fragment), never from the library",
-    "'confirmed' = DPF 'confirmed data' with the response-requested (A) bit set, 'unconfirmed' = DPF 'unconfirmed data' "
-    "with A clear (the library keys the block layout on the A bit); mixed combinations are not generated",
+    "'confirmed' mode = response-requested (A) bit set, 'unconfirmed' = A clear: the library (generator and receiver) keys the "
+    "block layout on the A bit.  The DPF normally matches (confirmed data / unconfirmed data); the header_fields sub-check also "
+    "runs the two mixed DPF/A combinations, which the generator API accepts",
+    "payload lengths above 1500 octets (outside the property's quantifier) are generated only at the block-count boundaries "
+    "k = 63..65, 125..127 of rates 3/4 and 1, where the binding limit is the 7-bit blocks-to-follow field; they are labelled "
+    "length_above_1500 in the class histogram",
+    "crc_extremes assumes the generator's data block serial number 0 for every block when it solves for a CRC-9 field value "
+    "(observed behaviour; if that changes the construction merely stops hitting the extreme values, the oracle is unaffected)",
     "payloads that need more than 127 blocks cannot be announced in the 7-bit blocks-to-follow field: not generated, "
-    "counted under excluded_by_construction (rate 1/2 confirmed > 1266 octets)",
+    "counted under excluded_by_construction (cap(127)+1 of every slice; rate 1/2 confirmed > 1266 octets)",
     "SAP values generated: short data, IP packet data, proprietary, ARP, TCP/IP and UDP/IP header compression (with the "
     "last one the receiver additionally decodes the payload as a compressed header for a diagnostic print - arbitrary "
     "payload bytes must not make that fail; DESIGN.md left this SAP to C08 while the crash was open, it is fixed now)",
@@ -144,7 +157,7 @@ def oracle(case):
     DPF = L["DataPacketFormats"]
 
     header = L["DataHeader"](
-        dpf=DPF.DataPacketConfirmed if confirmed else DPF.DataPacketUnconfirmed,
+        dpf=DPF.DataPacketConfirmed if {"confirmed": True, "unconfirmed": False}.get(case.get("dpf"), confirmed) else DPF.DataPacketUnconfirmed,
         sap_identifier=L["SAPIdentifier"][case.get("sap", "IP_PacketData")],
         is_group=bool(case.get("group", False)),
         is_response_requested=confirmed,
@@ -263,55 +276,150 @@ def record(sub):
 # ---------------------------------------------------------------------------------------------- drivers
 
 SLICES = [(r, c) for r in dmr_ref.RATES for c in (False, True)]
-PRE_ROT = [0, 1, 3, 16, 2, 7]
+
+
+BOUNDARY_KS = list(range(1, 13)) + [31, 32, 33, 62, 63, 64, 65, 125, 126, 127]
 
 
 def _lengths(ctx: Ctx, rate, conf):
+    """(lengths to run, number of requested lengths that need more than 127 blocks).  Quick: every length that needs up to 8
+    blocks plus cap(k)-1, cap(k), cap(k)+1 for k in BOUNDARY_KS; thorough: additionally every length 0..1500.  Boundary
+    lengths above 1500 octets (rates 3/4 and 1, k >= 63) are kept: there the binding limit is the 7-bit blocks-to-follow field."""
     per = dmr_ref.octets_per_block(rate, conf)
     cap = lambda k: k * per - 4
-    top = min(MAX_LEN, dmr_ref.max_payload(rate, conf))
-    if ctx.quick:
-        ls = set(range(0, cap(4) + 2))
-        for k in (5, 10, 63, 64, 126, 127):
-            ls.update((cap(k) - 1, cap(k), cap(k) + 1))
-        ls.add(MAX_LEN)
-    else:
-        ls = set(range(0, MAX_LEN + 1))
-    excluded = sorted(l for l in ls if top < l <= MAX_LEN)
-    return sorted(l for l in ls if 0 <= l <= top), excluded
+    top = dmr_ref.max_payload(rate, conf)
+    ls = set(range(0, cap(8) + 2))
+    for k in BOUNDARY_KS:
+        ls.update((cap(k) - 1, cap(k), cap(k) + 1))
+    ls.add(MAX_LEN)
+    if not ctx.quick:
+        ls.update(range(0, MAX_LEN + 1))
+    return sorted(l for l in ls if 0 <= l <= top), len([l for l in ls if l > top])
+
+
+def _run_cases(ctx: Ctx, sub: SubCheck, items, n_chunks=96):
+    """items: list of (case, [extra class labels]); cost-balanced sharding (long payloads are ~100x more expensive)."""
+    def cost(it):
+        c = it[0]
+        p = c["payload"]
+        return -((len(p["hex"]) // 2 if "hex" in p else p["len"]) + 12 * c["preambles"])
+
+    items = sorted(items, key=cost)
+    chunks = [items[i::n_chunks] for i in range(n_chunks)]
+    rec = record(sub.name)
+
+    def work(chunk, t: Tally):
+        for case, labels in chunk:
+            if ctx.run_case(sub.name, oracle, case, t):
+                rec(case, t)
+                for lb in labels:
+                    t.cls(sub.name, lb)
+            else:
+                t.case(sub.name, cls="failing")
+
+    ctx.shards(work, [c for c in chunks if c])
 
 
 def drv_lengths(ctx: Ctx, sub: SubCheck):
     rng = ctx.rng("lengths")
+    pre_counts = ctx.pick([0, 1, 2, 16], [0, 1, 16])
     items = []
     n_excl = 0
     for si, (rate, conf) in enumerate(SLICES):
-        ls, excluded = _lengths(ctx, rate, conf)
-        n_excl += len(excluded)
+        ls, excl = _lengths(ctx, rate, conf)
+        n_excl += excl
         for j, l in enumerate(ls):
-            fillsel = (j + si) % 5
-            payload = {"prng": rng.getrandbits(32), "len": l} if fillsel < 3 else {"fill": 0x00 if fillsel == 3 else 0xFF, "len": l}
-            items.append({
-                "rate": rate, "confirmed": conf, "payload": payload, "preambles": PRE_ROT[(j + si) % len(PRE_ROT)], "cc": (j * 7 + si) % 16,
-                "ts": 1 + (j % 2), "dst": 1 + rng.getrandbits(23), "src": 1 + rng.getrandbits(23), "group": bool(j % 3 == 0),
-                "sap": SAPS[j % len(SAPS)], "full": j % 2, "resync": (j // 2) % 2, "ns": j % 8, "fsn": (8 + j % 8) if conf else 0,
-            })
-    # balance the shards: long payloads are ~100x more expensive than short ones
-    items.sort(key=lambda c: -c["payload"]["len"])
-    chunks = [items[i::64] for i in range(64)]
-    rec = record(sub.name)
-
-    def work(chunk, t: Tally):
-        for case in chunk:
-            if ctx.run_case(sub.name, oracle, case, t):
-                rec(case, t)
-            else:
-                t.case(sub.name, cls="failing")
-
-    ctx.shards(work, chunks)
+            for pi, n_pre in enumerate(pre_counts):
+                if n_pre == 2 and dmr_ref.fragment(l, rate, conf)[0] > 40:
+                    continue  # budget: the expensive long transmissions run with 0, 1 and 16 preambles only
+                q = j + si + pi
+                fillsel = q % 4
+                payload = {"prng": rng.getrandbits(32), "len": l} if fillsel < 2 else {"fill": 0x00 if fillsel == 2 else 0xFF, "len": l}
+                items.append(({
+                    "rate": rate, "confirmed": conf, "payload": payload, "preambles": n_pre, "cc": (q * 7) % 16,
+                    "ts": 1 + (q % 2), "dst": 1 + rng.getrandbits(23), "src": 1 + rng.getrandbits(23), "group": bool(q % 3 == 0),
+                    "sap": SAPS[q % len(SAPS)], "full": q % 2, "resync": (q // 2) % 2, "ns": q % 8, "fsn": (8 + q % 8) if conf else 0,
+                }, ["length_above_1500_(block_count_boundary)"] if l > MAX_LEN else []))
+    _run_cases(ctx, sub, items)
     ctx.tally.excluded["length_needs_more_than_127_blocks_(7-bit_BTF)"] += n_excl
+    ctx.tally.extra["lengths_preamble_counts"] = pre_counts
     if not ctx.quick:
-        ctx.tally.notes.append("lengths: every payload length 0..1500 that fits the header format, for each of the 6 (rate, mode) slices (payload bytes and the other fields sampled)")
+        ctx.tally.notes.append("lengths: every payload length 0..1500 that fits the header format plus the block-count boundary lengths, for each of the 6 (rate, mode) slices x preamble counts {0,1,16} (payload bytes and the other fields rotate)")
+
+
+# ---------------------------------------------------------------------------------------------- directed: check-value extremes
+
+CRC32_TARGETS = [0x00000000, 0xFFFFFFFF, 0x00000001, 0x80000000]
+CRC9_TARGETS = [0x000, 0x1FF]
+
+
+def drv_crc_extremes(ctx: Ctx, sub: SubCheck):
+    """Payloads constructed (GF(2) linearity, vp/refs/dmr_ref.force_*) so that the packet CRC-32 is exactly 0, all-ones, 1 or
+    0x80000000, or so that the CRC-9 field of one intermediate confirmed block is 0x000 / 0x1FF.  Identical in both tiers."""
+    items = []
+    k = 0
+    for si, (rate, conf) in enumerate(SLICES):
+        per = dmr_ref.octets_per_block(rate, conf)
+        cap = lambda n: n * per - 4
+        for length in sorted({5, 6, cap(1), cap(1) + 1, cap(2) - 3, cap(2), cap(3) - 1, cap(5) - 2, cap(5), cap(30), cap(30) - 5}):
+            if length < 5:
+                continue
+            n, pad = dmr_ref.fragment(length, rate, conf)
+            base = expand_payload({"prng": 1000 + si, "len": length}) + bytes(pad)
+            for target in CRC32_TARGETS:
+                k += 1
+                padded = dmr_ref.force_crc32(base, list(range(length - min(length, 6), length)), target)
+                if dmr_ref.crc32_value(padded) != target or padded[length:] != bytes(pad):
+                    raise AssertionError("harness: CRC-32 forcing failed")
+                items.append(({
+                    "rate": rate, "confirmed": conf, "payload": {"hex": padded[:length].hex()}, "preambles": k % 2, "cc": k % 16, "ts": 1 + k % 2, "dst": 1 + k, "src": 0xFFFFFF - k,
+                    "group": bool(k % 2), "sap": SAPS[k % len(SAPS)], "full": 1, "resync": 0, "ns": k % 8 if conf else 0, "fsn": 8 if conf else 0,
+                }, ["packet_crc32_%08x" % target]))
+        if conf:
+            for n_blocks in (2, 3, 6):
+                length = cap(n_blocks) - (n_blocks % 2)  # exact fit and pad 1
+                for which in range(n_blocks - 1):  # every intermediate block in turn
+                    for target in CRC9_TARGETS:
+                        k += 1
+                        pl = bytearray(expand_payload({"prng": 2000 + si + n_blocks, "len": length}))
+                        lo = which * per
+                        pl[lo : lo + per] = dmr_ref.force_crc9_field(rate, 0, bytes(pl[lo : lo + per]), [0, 1], target)  # generator numbers every block DBSN 0
+                        if dmr_ref.crc9_field(rate, 0, bytes(pl[lo : lo + per])) != target:
+                            raise AssertionError("harness: CRC-9 forcing failed")
+                        items.append(({
+                            "rate": rate, "confirmed": True, "payload": {"hex": bytes(pl).hex()}, "preambles": k % 2, "cc": k % 16, "ts": 1 + k % 2, "dst": 1 + k, "src": 0xFFFFFF - k,
+                            "group": bool(k % 2), "sap": SAPS[k % len(SAPS)], "full": 1, "resync": 0, "ns": k % 8, "fsn": 8,
+                        }, ["intermediate_block_crc9_field_%03x" % target]))
+    _run_cases(ctx, sub, items)
+    ctx.tally.notes.append("crc_extremes: the CRC-9 targets assume the generator's serial number 0 for every block (observed behaviour, not part of the property)")
+
+
+# ---------------------------------------------------------------------------------------------- directed: header fields
+
+ALL_SAPS = ["UDT", "TCP_IP_compression", "UDP_IP_compression", "IP_PacketData", "ARP", "Proprietary", "ShortData"]
+
+
+def drv_header_fields(ctx: Ctx, sub: SubCheck):
+    """One header field at a time over its complete range (others at a default), on a fixed 50-octet payload, for all six
+    slices: SAP (7 defined values), FSN 0..15, N(S) 0..7, F, S, group, DPF independent of the A bit, colour code 0..15,
+    timeslot, LLID extremes, preamble count 0..16.  Plus the full cross product A-mode x DPF x F x S x group."""
+    payload = {"prng": 424242, "len": 50}
+    items = []
+    for rate, conf in SLICES:
+        base = {"rate": rate, "confirmed": conf, "payload": payload, "preambles": 1, "cc": 1, "ts": 1, "dst": 2305001, "src": 2305002, "group": False, "sap": "IP_PacketData",
+                "full": 1, "resync": 0, "ns": 0, "fsn": 8 if conf else 0, "dpf": "confirmed" if conf else "unconfirmed"}
+        sweeps = [("sap", ALL_SAPS), ("fsn", range(16)), ("ns", range(8)), ("full", (0, 1)), ("resync", (0, 1)), ("group", (False, True)), ("dpf", ("confirmed", "unconfirmed")),
+                  ("cc", range(16)), ("ts", (1, 2)), ("dst", (1, 0xFFFFFF)), ("src", (1, 0xFFFFFF)), ("preambles", range(17))]
+        for field, values in sweeps:
+            for v in values:
+                items.append(({**base, field: v}, [f"field_{field}"]))
+        for dpf in ("confirmed", "unconfirmed"):
+            for full in (0, 1):
+                for resync in (0, 1):
+                    for group in (False, True):
+                        for n_pre in (0, 1):
+                            items.append(({**base, "dpf": dpf, "full": full, "resync": resync, "group": group, "preambles": n_pre, "ns": 5}, ["flag_cross_product"]))
+    _run_cases(ctx, sub, items)
 
 
 def _strategy():
@@ -354,7 +462,7 @@ def drv_random(ctx: Ctx, sub: SubCheck):
 
     def hyp(shard, t: Tally):
         rc = SLICES[shard % len(SLICES)]
-        ctx.hypothesis(sub.name, build(rc), oracle, ctx.pick(40, 200), tally=t, shard=shard, record=rec)
+        ctx.hypothesis(sub.name, build(rc), oracle, ctx.pick(40, 300), tally=t, shard=shard, record=rec)
 
     ctx.shards(hyp, list(range(ctx.pick(30, 48))))
 
@@ -407,7 +515,9 @@ def drv_short_boundary(ctx: Ctx, sub: SubCheck):
 
 
 SUBCHECKS = [
-    SubCheck("lengths", oracle, drv_lengths, "enumerated payload lengths (block boundaries; thorough: every length 0..1500) x 3 rates x 2 modes through generator -> bytes -> receiver"),
+    SubCheck("lengths", oracle, drv_lengths, "enumerated payload lengths (all lengths of 1..8 blocks, boundary triples for 26 block counts up to 127; thorough: every length 0..1500) x 3 rates x 2 modes x preamble counts {0,1,2,16} / {0,1,16} through generator -> bytes -> receiver"),
+    SubCheck("crc_extremes", oracle, drv_crc_extremes, "directed: payloads constructed so that the packet CRC-32 is 00000000 / FFFFFFFF / 00000001 / 80000000 or an intermediate confirmed block's CRC-9 field is 000 / 1FF"),
+    SubCheck("header_fields", oracle, drv_header_fields, "directed: every header field over its complete range (SAP, FSN, N(S), F, S, group, DPF vs A, colour code, timeslot, LLID extremes, preambles 0..16) on a fixed 50-octet payload x 6 slices"),
     SubCheck("short_boundary_payloads", oracle, drv_short_boundary, "directed: SAP UDP/IP compression, payload lengths 0..12, first six octets from {00,01,7F,80,81,FF} on two positions at a time ((3,4) complete) x 3 rates x 2 modes"),
     SubCheck("random", oracle, drv_random, "Hypothesis: all case fields drawn, lengths weighted to block boundaries"),
 ]
